@@ -3,4 +3,4 @@ From IMB Require Import Mgr.Ooo Mgr.OooSched.
 Require Extraction.
 Require Import ExtrOcamlBasic.
 Extraction Language OCaml.
-Extraction "../../.build/ocaml/ooo_model.ml" s_reset s_submit s_flush s_unused s_lens s_job.
+Extraction "ooo_model.ml" s_reset s_submit s_flush s_unused s_lens s_job.
